@@ -207,6 +207,10 @@ fn e2e_case(r: &mut Rng, allow_empty_frames: bool, res: &mut CaseResult) {
     // consumer tags are unique per channel only: in a third of the runs every channel
     // uses the same tags
     reflex.per_channel_tags = r.chance(1, 3);
+    // in a third of the runs the broker has a backlog: deliveries follow every ConsumeOk in
+    // the same read
+    let auto: Vec<usize> = if r.chance(1, 3) { (0..r.usize(1, 5)).map(|_| *r.pick(&[0usize, 1, 50, 5000])).collect() } else { vec![] };
+    reflex.deliver_with_consume_ok = auto.clone();
     let nch = r.usize(1, 6);
     // plan
     let mut plans: Vec<ChanPlan> = Vec::new();
@@ -380,7 +384,10 @@ fn e2e_case(r: &mut Rng, allow_empty_frames: bool, res: &mut CaseResult) {
         }
         for (ci, tag) in o.tags.iter().enumerate() {
             let empty = Vec::new();
-            let want = sent.get(&(o.id, tag.clone())).unwrap_or(&empty);
+            let mut want_v: Vec<Msg> = auto.iter().enumerate().map(|(i, len)| crate::reflex::auto_msg(o.id, tag, i, *len)).collect();
+            res.obs("deliveries_right_behind_consume_ok", want_v.len() as u64);
+            want_v.extend(sent.get(&(o.id, tag.clone())).unwrap_or(&empty).iter().cloned());
+            let want = &want_v;
             let got = &o.deliveries[ci];
             res.obs("deliveries_checked", got.len() as u64);
             if o.terminal_seen[ci] != 0 {
